@@ -39,6 +39,19 @@ def cmdLoad : List Sexp → String
     | _, _, _ => "bad-args"
   | _ => "bad-args"
 
+/-- `reqops <env> <node> ( op ) ...`: each `UnknownNode.require_*` call on the node, separately -/
+def cmdReqOps : List Sexp → String
+  | env :: node :: ops =>
+    match toEnv env, toNode node, ops.mapM toRecOp with
+    | some env, some n, some ops =>
+      String.intercalate " " (ops.map (fun op =>
+        match runRecOp env.ext (fun x U => recognize env FUEL x U) n op with
+        | .ok none => "ok"
+        | .ok (some _) => "raise"
+        | .error f => "fatal:" ++ showFatal f))
+    | _, _, _ => "bad-args"
+  | _ => "bad-args"
+
 def optAnchor : Sexp → Option (Option String)
   | .atom "~" => some none
   | s => s.str?.map some
